@@ -276,7 +276,7 @@ def hitobj_cases(ctx, alpha, n, maxlines, clear=True, bykind=True, emit=True, in
 
 def check_C14(ctx):
     thorough = ctx.tier == "thorough"
-    for m in ("PathString", "Samples", "HitObjectLine"):
+    for m in ("PathString", "Samples", "HitObjectLine", "Trace_HitObjectLine"):
         sany(ctx, m)
     plan = [("typesquick", 0, 1), ("combo", 0, 3), ("num", 0, 2), ("bank", 0, 1), ("nodes", 0, 1),
             ("pathx", 3, 1), ("path", 4, 1)]
@@ -288,6 +288,12 @@ def check_C14(ctx):
         summ = harness(ctx, ["hitobj", "replay", "--prop", "C14", "--spellings", "2"], cases_file=f, name="hitobj-" + a,
                        timeout=3600)
         report_mismatches(ctx, summ, "hit-object decoding differs from the HitObjectLine specification (alphabet %s)" % a)
+    tcfg = dict(spec="TrSpec", invariants=["TrShape"], postcondition="Accepted",
+                constants=dict(AlphaName='"combo"', AlphaN="0", MaxLines="0", ClearOnEntry="TRUE", LastByKind="TRUE", Emit="FALSE"))
+    runs, lines = (60, 300) if thorough else (12, 150)
+    trace_step(ctx, "Trace_HitObjectLine", "Trace_HitObjectLine", tcfg,
+               ["hitobj", "record", "--runs", str(runs), "--lines", str(lines)],
+               "recorded hit-object parsing is not a behaviour of the HitObjectLine specification", "hitobj-trace")
     ctx.assumptions += ["slider paths are spelled relative to an object at (10,10) with the four named points of PathString",
                         "the spelling table harness/src/hitobj.rs", "numeric values are integers (plus a truncated fraction class)"]
     return finish(ctx, "model_checking",
